@@ -478,6 +478,11 @@ def compare_one(ctx, spec, impl, model, indep_edges_ok=True):
         feats.append("optional-edges")
     if any(not ok for rows in res.values() for (_n, _v, ok, _o) in rows):
         feats.append("unresolved-dependency")
+    byname = {}
+    for p in spec["products"]:
+        byname.setdefault(p["name"], []).append(p["version"])
+    if any(a != b and b.startswith(a) for vs in byname.values() for a in vs for b in vs):
+        feats.append("version-is-prefix-of-another")
     for f in feats:
         ctx.bump("feature/" + f)
     # how often the hypotheses of build_order_safe (one version per name, no cycle in the closure) hold
@@ -573,7 +578,8 @@ def corpus_specs():
 def setup_ctx(ctx):
     ctx.matchers["c13.two_versions_in_closure"] = m_two_versions
     ctx.rule = ("random product graphs of 4-9 product names (shapes chain, diamond, tree with shared sub-trees, dag, "
-                "two versions of one product reached by one root, cycles and self-dependencies, unresolved dependencies; "
+                "two versions of one product reached by one root, cycles and self-dependencies, unresolved dependencies, "
+                "a directed family and 30% respelled graphs whose version names are prefixes of one another (1.0/1.0.1, 1/10, 1.0/1.0-rc1); "
                 "optional edges; explicit versions and bare names resolved through the tag current) materialised as real "
                 "stacks; for every declared product getDependentProducts(topological F/T) and checkCycles, for every "
                 "product name and version mentioned uses(x[,v]); one evaluation = one such call compared with the model "
